@@ -95,8 +95,8 @@ func keyText(tb gen.TableSpec, row map[string]memsql.Value) string {
 func lockRows(lockKey string) map[string]bool {
 	out := map[string]bool{}
 	for _, k := range faketc.SplitLockKey(lockKey) {
-		if !strings.HasSuffix(k, ":") {
-			out[k] = true
+		if i := strings.Index(k, ":"); i >= 0 && i < len(k)-1 {
+			out[k] = true // (an entry without any key text after "table:" names no row)
 		}
 	}
 	return out
@@ -620,7 +620,7 @@ func TestMain(m *testing.M) {
 	env.Srv.SetLockWait(150 * time.Millisecond)
 	_ = tm.GetXID
 	ctx.Rec.SetRule("part A completeness: AT branch programs as in C01 (single branch; autocommit or explicit transaction of 1–3 statements); ground truth = the engine's write set of the committed local transaction (inserted / updated / deleted rows by table and key); the (table, key) pairs parsed from BranchRegisterRequest.LockKey must contain it and be sent before COMMIT. Part A canonical: one row (4 key shapes) is touched in separate global transactions by INSERT, UPDATE, SELECT … FOR UPDATE (GlobalLockQuery), upsert and DELETE in a generated order; every produced key text must equal TABLE:k1[_k2] of the row. Part B overlap: T1 writes a row and keeps its global transaction open (global lock held in the coordinator's lock table), T2 (another global transaction) reads-for-update, updates or deletes the same or another row, in autocommit or inside an explicit transaction with an earlier write; the harness owns the order (all steps are synchronous calls). Oracle B: overlap ⇒ T2 fails, nothing of T2 is committed, no local row lock or engine transaction is left; no overlap ⇒ T2 succeeds, a locking read asked the coordinator and returns the rows of the bare driver. Non-trivial: write set non-empty (A) / a real conflict (B). Distinct by (key shape, statement kinds, overlap pattern, modes).")
-	ctx.Rec.Assume("key values avoid the separator characters _ , : ; (ambiguity there is inherent in the format)", "coordinator lock table as modelled by faketc (LockMode)")
+	ctx.Rec.Assume("key values avoid the separator characters _ , ; (ambiguity there is inherent in the format); a colon inside a key value is generated: only the first colon of an entry separates the table", "coordinator lock table as modelled by faketc (LockMode)")
 	ctx.RunWitnesses(func(f stats.Finding) *pt.Failure {
 		var c Case
 		if err := json.Unmarshal(f.Witness, &c); err != nil {
